@@ -1568,7 +1568,8 @@ class Engine(object):
             # ghost snapshot of the state at the start of this iteration: at(_iter_start, e) in ghost checkpoints of the body
             s.ghost['_iter_start'] = SV(Ty('heap'), None, None, s.fork())
             def bound(s2, v2):
-                self.assign(n.target, v2, s2, lambda s3: self.ex_block(n.body, s3, body_end))
+                pre = list(lspec.body_ghost) if lspec is not None and getattr(lspec, 'body_ghost', None) else []
+                self.assign(n.target, v2, s2, lambda s3: self.ex_block(pre + list(n.body), s3, body_end))
             self.resolve_opt(s, v, bound)
 
         self.branch(head, in_range(head, i), enter, after, note='for%s' % ordinal)
